@@ -6,6 +6,7 @@ import (
 	"fmt"
 	"io"
 	"net/http"
+	"sync"
 	"time"
 
 	"github.com/emersion/go-webdav/internal"
@@ -180,6 +181,9 @@ func (c *Client) ReadDir(ctx context.Context, name string, recursive bool) ([]Fi
 type fileWriter struct {
 	pw   *io.PipeWriter
 	done <-chan error
+
+	closeOnce sync.Once
+	closeErr  error
 }
 
 func (fw *fileWriter) Write(b []byte) (int, error) {
@@ -190,7 +194,12 @@ func (fw *fileWriter) Close() error {
 	if err := fw.pw.Close(); err != nil {
 		return err
 	}
-	return <-fw.done
+	// The result is delivered once: remember it so that closing twice
+	// doesn't block forever
+	fw.closeOnce.Do(func() {
+		fw.closeErr = <-fw.done
+	})
+	return fw.closeErr
 }
 
 // Create writes a file's contents.
@@ -214,7 +223,7 @@ func (c *Client) Create(ctx context.Context, name string) (io.WriteCloser, error
 		done <- nil
 	}()
 
-	return &fileWriter{pw, done}, nil
+	return &fileWriter{pw: pw, done: done}, nil
 }
 
 // checkMultiStatus closes the body of a response to DELETE, COPY or MOVE. A
